@@ -54,6 +54,7 @@ type SpecKnobs struct {
 	Epochs         int  // planned chain length in epochs: fork epochs are drawn so that they fall inside
 	PlainMinimal   bool // minimal preset untouched except fork epochs
 	AllForksInside bool // force all four fork epochs < Epochs-1
+	ForkBias       string // "late": forks at the last four possible epochs; "early": 1,2,3,4
 	FastEth1       bool // EPOCHS_PER_ETH1_VOTING_PERIOD 1
 	HugeRewards    bool // BASE_REWARD_FACTOR 2^14..2^16: a missed epoch costs a noticeable share of an increment
 	StrongPenalty  bool // large base reward / small inactivity quotients so balances move fast
@@ -74,6 +75,12 @@ func ForkSchedule(r *hx.Rng, k SpecKnobs) [4]uint64 {
 		hi = 1
 	}
 	var f [4]uint64
+	if k.ForkBias == "early" && hi >= 4 {
+		return [4]uint64{1, 2, 3, 4}
+	}
+	if k.ForkBias == "late" && hi >= 5 {
+		return [4]uint64{uint64(hi - 3), uint64(hi - 2), uint64(hi - 1), uint64(hi)}
+	}
 	sort4 := func() {
 		for i := 0; i < 4; i++ {
 			for j := i + 1; j < 4; j++ {
